@@ -23,6 +23,7 @@ DECIDED = [
     'R3: in FunctionNode.on_merge_impl every path that takes the target from the newer node is guarded by the newer node having priority (ties to the newer) and clears the old arguments unless the newer node is told to merge.',
     'R4: FunctionNode deletes by default (class default and explicit constructor default delete=True); tag forms: !call:name / !bind:name pass the suffix as func and the data as args, the bare forms pass the scalar as func.',
     'R5: FunctionNode(func, args) evaluated on 11 argument shapes: target stored; arguments normalised to a mapping (positions for lists / tuples, position 0 for a scalar); a (func, args) pair with extra args and an empty target are rejected; delete defaults to True.',
+    'R6: utils.import_name evaluated on 11 dotted names against a model of importable modules: import while modules are found (relative to what was found so far), attribute access afterwards; ImportError for what does not resolve, ValueError for an empty / dangling name.',
 ]
 UNDECIDED = ['binding for arbitrary signatures and dynamic argument values as data;', 'import_name resolution.']
 KINDS = ['POSITIONAL_ONLY', 'POSITIONAL_OR_KEYWORD', 'VAR_POSITIONAL', 'KEYWORD_ONLY', 'VAR_KEYWORD']
@@ -358,11 +359,13 @@ def check(repo, run, tier):
     g(unitrules.function_node_init, repo, run, 'C13.R5')
     g(unitrules.suffix_constructors, repo, run, 'C13.R4')
     g(unitrules.tag_spec, repo, run, 'C13.R4', ['!call', '!call:', '!bind', '!bind:'])
+    g(unitrules.import_name_table, repo, run, 'C13.R6')
     g.done()
 
 
 def mutants(repo):
     return [
+        Mutant('attribute-lookup-skipped', lambda r: in_func(r, 'utils.import_name', "        if current is not None:\n            try:\n                current = getattr(current, element)", "        if current is None:\n            try:\n                current = getattr(current, element)"), ['C13.R6']),
         Mutant('suffix-without-metadata-rejected', lambda r: in_func(r, 'yaml._bind_constructor', "pad_with_none(*tag_suffix.split(':', maxsplit=1), minlen=2)", "pad_with_none(*tag_suffix.split(':', maxsplit=1))"), ['C13.R4']),
         Mutant('function-args-not-normalised', lambda r: in_func(r, 'FunctionNode.__init__', "if args is not None and not isinstance(args, dict):", "if args is None and not isinstance(args, dict):"), ['C13.R5']),
         Mutant('bind-returns-target-when-empty', lambda r: in_func(r, 'BindNode.ayns.on_evaluate_impl', "        return partial(_func, *p, **kw_p, **kw)", "        if not p and not kw_p and not kw:\n            return _func\n        return partial(_func, *p, **kw_p, **kw)"), ['C13.R1']),
